@@ -252,14 +252,19 @@ class workq:
         channel = job.channel
 
         alternatives = []
-        for watching, ev in self._waiters:
+        for waiter in self._waiters:
+            watching = waiter[0]
             if channel in watching or not watching:
-                alternatives.append(ev)
+                alternatives.append(waiter)
 
         heapq.heappush(self.timeoutq, (job.timeout, job))
 
         if alternatives:
-            random.choice(alternatives).set(job)
+            # a waiter receives at most one job: unregister it at hand-off, so
+            # that another push before it runs cannot overwrite this job
+            waiter = random.choice(alternatives)
+            self._waiters.remove(waiter)
+            waiter[1].set(job)
             return job.jobid
 
         try:
@@ -307,11 +312,18 @@ class workq:
             heapq.heappop(self.channel2q[j.channel])
         else:
             ev = event.AsyncResult()
-            self._waiters.append((channels, ev))
+            waiter = (channels, ev)
+            self._waiters.append(waiter)
             try:
                 j = ev.get()
+            except BaseException:
+                # killed while waiting: do not lose a job already handed over
+                if ev.ready() and not ev.value.done:
+                    self.pushjob(ev.value)
+                raise
             finally:
-                self._waiters.remove((channels, ev))
+                if waiter in self._waiters:
+                    self._waiters.remove(waiter)
 
         return j
 
